@@ -557,10 +557,16 @@ def class_constants(vc, qual):
     return out
 
 
-def real_adjustment_classes(vc, names):
-    """RegressionAdjustment / LinearAdjustment assembled from the REAL method bodies (instrumented), class attributes read from the tree"""
+def real_adjustment_classes(vc, names, created):
+    """RegressionAdjustment / LinearAdjustment assembled from the REAL method bodies (instrumented), class attributes read from the tree;
+    every instance is appended to `created` (ghost record)"""
+    def new(cls, *a, **kw):
+        o = object.__new__(cls)
+        created.append(o)
+        return o
+
     def build(cls, bases, methods, props):
-        d = {}
+        d = {'__new__': new}
         for k, (tag, v) in class_constants(vc, PP + cls).items():
             d[k] = v if tag == 'lit' else names[v]
         for mth in methods:
@@ -602,7 +608,8 @@ class AdjustPosterior(Contract):
                 self_.bf = vc.fresh_fn('coef', I, R)           # assumed library: the slope vector, one entry per regressor column
                 self_.coef_ = SArr.from_fn(lambda c: self_.bf(c), (X.shape[1],), 'real')
                 return self_
-        s.RA, s.LA = real_adjustment_classes(vc, {'LinearRegression': RecModel})
+        s.created = []
+        s.RA, s.LA = real_adjustment_classes(vc, {'LinearRegression': RecModel}, s.created)
         snames = ['s%d' % c for c in range(m)]
         pnames = [named(i) for i in range(self.p)]
         s.S = [z3.Function('S%d' % c, I, R) for c in range(m)]
@@ -651,37 +658,41 @@ class AdjustPosterior(Contract):
         if not (isinstance(outs, dict) and list(outs) == s.pnames):
             return out
         j0, m = s.j0, self.M
+        inst = s.created[0] if len(s.created) == 1 else None
+        X = getattr(inst, '_X', None)
+        masks = getattr(inst, '_finite', None)
+        ok2 = isinstance(X, SArr) and X.ndim == 2 and isinstance(masks, list) and len(masks) == self.p and (self.how != 'instance' or inst is s.adj)
+        out.append(('exactly one adjustment object is used (the given instance, or a fresh LinearAdjustment for "linear"); it holds the regressors and one row mask per parameter',
+                    z3.BoolVal(ok2)))
+        if not ok2:
+            return out
+        plus = z3.And([forall_range(0, s.n, lambda r, c=c: X.at(r, c) == s.S[c](r) - s.O[c], 'r') for c in range(m)])
+        minus = z3.And([forall_range(0, s.n, lambda r, c=c: X.at(r, c) == s.O[c] - s.S[c](r), 'r') for c in range(m)])
+        out.append(('the regressors are (simulated - observed) summaries, one column per summary name in order (one sign convention for the whole matrix)',
+                    z3.And(X.shape[0] == s.n, X.shape[1] == m, z3.Or(plus, minus))))
         for i, mm in enumerate(s.models):
             Xfit, yfit = mm.fits[0]
             res = outs[s.pnames[i]]
-            fin_row = lambda r, i=i: z3.And(z3.And([z3.And(FIN(s.S[c](r) - s.O[c])) for c in range(m)]), FIN(s.th[i](r)))
-            # the rows the regression saw: an increasing enumeration (k, sel) of the rows where every regressor and theta_i are finite
-            msk = SArr.from_fn(lambda r: fin_row(r), (s.n,), 'bool')
+            k, sel, rank, msk = masks[i].select()
+            out.append(('parameter %d: the regression sees exactly the rows where every regressor and the parameter are finite' % i,
+                        z3.And(masks[i].shape[0] == s.n,
+                               forall_range(0, s.n, lambda r, i=i: masks[i].at(r) == z3.And(z3.And([FIN(X.at(r, c)) for c in range(m)]), FIN(s.th[i](r))), 'r'))))
+            out.append(('parameter %d: fitted regressors / responses are those rows of X / theta, in order' % i,
+                        z3.And(Xfit.shape[0] == k, yfit.shape[0] == k, Xfit.shape[1] == m,
+                               forall_range(0, k, lambda j, i=i: z3.And(yfit.at(j) == s.th[i](sel(j)), z3.And([Xfit.at(j, c) == X.at(sel(j), c) for c in range(m)])), 'j'))))
             out.append(('parameter %d: the adjusted values are (fitted responses) - (fitted regressors) . coef_ of the regression fitted on them' % i,
-                        z3.And(z3.BoolVal(isinstance(res, SArr) and res.ndim == 1), res.shape[0] == yfit.shape[0], Xfit.shape[0] == yfit.shape[0],
+                        z3.And(z3.BoolVal(isinstance(res, SArr) and res.ndim == 1), res.shape[0] == k,
                                z3.Implies(mm.G, res.at(j0) == yfit.at(j0) - mm.D(m)))))
-            out.append(('parameter %d: a fitted row whose regressors are all zero is returned unchanged' % i,
+            out.append(('parameter %d: a fitted row whose regressors are all zero (simulated = observed) is returned unchanged' % i,
                         z3.Implies(z3.And(mm.G, mm.Z), res.at(j0) == yfit.at(j0))))
-            s.e2e_rows = (Xfit, yfit)
-        return out + self._rows(s)
-
-    def _rows(self, s):
-        """what the regressions were fitted on, in terms of the INPUTS"""
-        out = []
-        m = self.M
-        for i, mm in enumerate(s.models):
-            Xfit, yfit = mm.fits[0]
-            k = Xfit.shape[0]
-            row = vc_row = z3.Function('fitrow%d' % i, I, I)     # witness: original row of fitted row j (the code's selection)
-            out.append((i, Xfit, yfit, k))
-        return []
+        return out
 
     def witness(self, vc, model, ob):
         return dict(function='adjust_posterior', p=self.p)
 
 
 CONTRACTS = [InputVariables(1), InputVariables(3), GetFinite(1), GetFinite(2), Pairs(2), Fit(1, True), Fit(2, False),
-             Adjust1(), Adjust(2), AdjustPosterior(1, 'linear')]
+             Adjust1(), Adjust(2), AdjustPosterior(1, 'linear'), AdjustPosterior(2, 'instance')]
 TRUSTED_BASE = []
 ASSUMPTIONS = []
 NOT_PROVED = []
